@@ -478,6 +478,53 @@ def part_run(ctx: Ctx) -> Result:
         res.violate(Violation(ID, "run", "main-recorded", case, f"`run -m`: functions of the module run as __main__ were recorded: {sorted(rows3)[:6]}"))
     if want - rows3:
         res.violate(Violation(ID, "run", "admitted-not-recorded", case, f"`run -m`: admitted calls not recorded: {sorted(want - rows3)}"))
+    # two sessions of the DEFAULT configuration (`monkeytype.trace()` without arguments) in one process, every ordered pair
+    # of allow-list settings: each session obeys the MONKEYTYPE_TRACE_MODULES that is in force when it runs
+    import monkeytype as _mt
+    from monkeytype.db.sqlite import SQLiteStore as _Store
+
+    settings = [None, "json", modname, f"json,{modname}"]
+    old_env = {k_: os.environ.get(k_) for k_ in ("MONKEYTYPE_TRACE_MODULES", "MT_DB_PATH")}
+    modobj = importlib.import_module(modname)
+    try:
+        for a1 in settings:
+            for a2 in settings:
+                seen_pair = []
+                for si_, allow in enumerate((a1, a2)):
+                    dbs = str(d / f"sess_{settings.index(a1)}_{settings.index(a2)}_{si_}.sqlite3")
+                    os.environ["MT_DB_PATH"] = dbs
+                    if allow is None:
+                        os.environ.pop("MONKEYTYPE_TRACE_MODULES", None)
+                    else:
+                        os.environ["MONKEYTYPE_TRACE_MODULES"] = allow
+                    clear_cache()
+                    with _mt.trace():
+                        modobj.f0(1)
+                        modobj.K().m(2)
+                        __import__("json").dumps([1])
+                    st_ = _Store.make_store(dbs)
+                    seen_pair.append({(t.module, t.qualname) for m_ in st_.list_modules() for t in st_.filter(m_)})
+                    st_.conn.close()
+                res.states += 1
+                res.transitions += 2
+                res.evaluations += 1
+                res.validated += 1
+                for si_, allow in enumerate((a1, a2)):
+                    rows_ = seen_pair[si_]
+                    want_user = allow is None or modname in allow.split(",")
+                    want_json = allow is not None and "json" in allow.split(",")
+                    got_user = (modname, "f0") in rows_ and (modname, "K.m") in rows_
+                    got_json = any(m_.startswith("json") for m_, _ in rows_)
+                    if got_user != want_user or got_json != want_json:
+                        res.violate(Violation(ID, "run", "default-config-sessions:allow-list-of-another-session", dict(case, allow=[a1, a2], session=si_), f"default-config sessions with MONKEYTYPE_TRACE_MODULES = {a1!r} then {a2!r}: session {si_ + 1} recorded user module: {got_user} (expected {want_user}), json: {got_json} (expected {want_json}); rows {sorted(rows_)[:6]}"))
+    finally:
+        for k_, v_ in old_env.items():
+            if v_ is None:
+                os.environ.pop(k_, None)
+            else:
+                os.environ[k_] = v_
+        clear_cache()
+    res.oblige("R:default-config-sessions-with-changing-allow-list", True)
     # ONE file under two identities in two tracing sessions of one process: run as the script (its functions are __main__,
     # nothing of it is recorded), then imported as a module by another script (its functions are ordinary and recorded) -
     # and the other way round. Nothing a session learnt about a code object may decide the next session's verdict.
@@ -695,7 +742,7 @@ def run(ctx: Ctx) -> Result:
     res.merge(part_paths(ctx))
     res.merge(part_misc(ctx))
     res.merge(part_run(ctx))
-    for o in ("P:symlinked-spelling-of-library-path", "A:allow-list-admits-library-package", "A:allow-list-admits-user-module", "A:allow-list-rejects", "C:equal-code-different-verdicts", "F:twin-code-objects-equal", "A:allow-list-name-equal-to-prefix-component", "U:mod=True", "U:link_to_lib=False", "U:link_to_user=True", "U:near-root-path-admitted", "U:near-root-path-rejected", "R:modules-named-like-parts-of-__main__", "R:one-file-two-identities"):
+    for o in ("P:symlinked-spelling-of-library-path", "A:allow-list-admits-library-package", "A:allow-list-admits-user-module", "A:allow-list-rejects", "C:equal-code-different-verdicts", "F:twin-code-objects-equal", "A:allow-list-name-equal-to-prefix-component", "U:mod=True", "U:link_to_lib=False", "U:link_to_user=True", "U:near-root-path-admitted", "U:near-root-path-rejected", "R:modules-named-like-parts-of-__main__", "R:one-file-two-identities", "R:default-config-sessions-with-changing-allow-list"):
         res.obligations.setdefault(o, False)
     res.nontrivial_n = res.states
     return res
